@@ -16,12 +16,15 @@ import NeumannModel.RelTx.Model
     create_index|create_btree|drop_index|drop_btree <t> <c>
     tick <ms> | cleanup_locks | cleanup_txs
     select <t> <cond>                           rows <id:v.v;...> | err table_not_found
+    tx_select <tx> <t> <cond>                   rows <id:v.v;...> | err <class>
+    nactive                                     n <k>        (active_transaction_count)
     image <t>                                   img <rows>|H:<cols>|B:<cols>
     holder <t> <rowid>                          h <tx>|h -
     held <tx>                                   n <k>
     active <tx>                                 true|false
     nlocks                                      n <k>
-  cond: T | I:<rowid> | E:<c>:<v> | L:<c>:<v> | LE:<c>:<v> | G:<c>:<v> | GE:<c>:<v>
+  cond: T | I:<rowid> | E:<c>:<v> | N:<c>:<v> | L:<c>:<v> | LE:<c>:<v> | G:<c>:<v> | GE:<c>:<v>
+        | A/<cond>/<cond> | O/<cond>/<cond>      (prefix notation, no parentheses)
 -/
 open Neumann Neumann.Proto Neumann.RelTx
 
@@ -37,7 +40,7 @@ def showRes (bump : Nat) : Res → String
   | .okN n => s!"ok {n + bump}"
   | .err e => "err " ++ showErr e
 
-def parseCond (s : String) : Option Cond :=
+def parseAtom (s : String) : Option Cond :=
   match s.splitOn ":" with
   | ["T"] => some .all
   | ["I", i] => match i.toNat? with
@@ -45,10 +48,29 @@ def parseCond (s : String) : Option Cond :=
     | _ => none
   | [k, c, v] => match c.toNat?, v.toInt? with
     | some c, some v =>
-      if k = "E" then some (.eq c v) else if k = "L" then some (.lt c v)
+      if k = "E" then some (.eq c v) else if k = "N" then some (.ne c v) else if k = "L" then some (.lt c v)
       else if k = "LE" then some (.le c v) else if k = "G" then some (.gt c v)
       else if k = "GE" then some (.ge c v) else none
     | _, _ => none
+  | _ => none
+
+/-- compound conditions in prefix notation, `/`-separated: `A/<cond>/<cond>` = And, `O/<cond>/<cond>` = Or -/
+def parseCondToks : Nat → List String → Option (Cond × List String)
+  | 0, _ => none
+  | _ + 1, [] => none
+  | fuel + 1, tok :: rest =>
+    if tok = "A" ∨ tok = "O" then
+      match parseCondToks fuel rest with
+      | some (a, r1) =>
+        match parseCondToks fuel r1 with
+        | some (b, r2) => some (if tok = "A" then .and a b else .or a b, r2)
+        | none => none
+      | none => none
+    else (parseAtom tok).map fun c => (c, rest)
+
+def parseCond (s : String) : Option Cond :=
+  match parseCondToks 64 (s.splitOn "/") with
+  | some (c, []) => some c
   | _ => none
 
 def parseUpd (s : String) : Option (List (Nat × Int)) :=
@@ -108,6 +130,12 @@ def relStep (s : State) (line : String) : State × String :=
         | some T => (s, "rows " ++ showRows (select T c))
         | none => (s, "err table_not_found"))
     | _, _ => bad
+  | ["tx_select", tx, t, c] => match tx.toNat?, t.toNat?, parseCond c with
+    | some tx, some t, some c => (match txSelect s tx t c with
+        | .rows r => (s, "rows " ++ showRows r)
+        | .err e => (s, "err " ++ showErr e))
+    | _, _, _ => bad
+  | ["nactive"] => (s, s!"n {activeCount s}")
   | ["image", t] => match t.toNat? with
     | some t => (match s.tables t with
         | some T => (s, "img " ++ showRows (scanAnswer T .all) ++ "|H:" ++ showNats (sortNats T.hashOn)
